@@ -29,7 +29,7 @@ RULE = ("case = invalid-request class (%d classes covering every item of the sta
         "arguments x, for Weaver entry points, a random valid history of 0..6 operations. non-trivial: Weaver classes "
         "whose pre-state differs from a freshly constructed object, and every function-level rejection; distinct by "
         "case index." % len(CLASSES))
-REQUIRED_MONITORS = ["c20:" + c for c in CLASSES] + ["c20:state_snapshot"]
+REQUIRED_MONITORS = ["c20:" + c for c in CLASSES] + ["c20:state_snapshot", "c20:fuzzed_request", "c20:fuzzed_rejected"]
 ASSUMPTIONS = ["out-of-range fixed-point INDICES and empty query lists are not exercised (outside the statement)"]
 NSHARDS = 16
 BOGUS = ["bogus", "", "Trapezoid", "rect", "nearest", "LINEAR", "quadratic", None, 3]
@@ -37,7 +37,9 @@ BOGUS = ["bogus", "", "Trapezoid", "rect", "nearest", "LINEAR", "quadratic", Non
 
 def plan(tier, seed):
     n = 4000 if tier == "quick" else 150000
-    return [{"kind": "random", "start": p * (n // NSHARDS), "count": n // NSHARDS} for p in range(NSHARDS)]
+    k = n // 2
+    return [{"kind": "random", "start": p * (n // NSHARDS), "count": n // NSHARDS} for p in range(NSHARDS)] + \
+        [{"kind": "fuzz", "start": p * (k // NSHARDS), "count": k // NSHARDS} for p in range(NSHARDS)]
 
 
 def bogus(rng, valid):
@@ -62,7 +64,91 @@ DOMAIN_ONLY = ["append_one_sample", "repeat", "scale_x", "scale_y", "shift_x", "
                "truncate_by_value", "truncate_by_index"]
 
 
+def run_fuzz_case(ctx, kind_, idx):
+    """Requests with arbitrary (valid or invalid) arguments after histories that include reshaping: whatever the
+    library decides, a call that ends in ValueError must not have touched working / reference / original series."""
+    from traffic_weaver import Weaver
+    rng = ctx.rng(kind_, idx)
+    cid = ctx.case_id(kind_, idx)
+    x, y, meta = R.gen_series(rng, 4, 20, ties_share=0.2)
+    if meta["ycls"] == "constant":
+        y = y + np.arange(len(y))
+    info = {}
+    try:
+        with fp_watch(ctx):
+            wv = Weaver(x.copy(), y.copy())
+            info["history"] = W.random_history(rng, wv, 1, 5, max_len=600)
+            wx, wy = wv.get()
+            n, nr = len(wx), len(wv.get_reference()[0])
+            t = int(rng.integers(0, 8))
+            lo, hi = float(wx[0]), float(wx[-1])
+            if t == 0:
+                a = (int(rng.integers(-2, n + 3)), None if rng.integers(0, 3) == 0 else int(rng.integers(-2, max(n, nr) + 3)))
+                info["request"] = ["truncate_by_index", list(a)]
+                call = lambda: wv.truncate_by_index(*a)
+            elif t == 1:
+                a = (int(rng.integers(-2, n + 3)), None if rng.integers(0, 3) == 0 else int(rng.integers(-2, n + 3)),
+                     int(rng.integers(1, 4)))
+                info["request"] = ["slice_by_index", list(a)]
+                call = lambda: wv.slice_by_index(*a)
+            elif t == 2:
+                a = sorted(rng.uniform(lo - 0.2 * (hi - lo), hi + 0.2 * (hi - lo), 2))
+                if rng.integers(0, 3) == 0:
+                    a = a[::-1]
+                info["request"] = ["truncate_by_value", [float(v) for v in a]]
+                call = lambda: wv.truncate_by_value(float(a[0]), float(a[1]))
+            elif t == 3:
+                a = (float(rng.uniform(-0.2, 1.2)), float(rng.uniform(-0.2, 1.2)))
+                info["request"] = ["truncate_by_value(ratios)", list(a)]
+                call = lambda: wv.truncate_by_value(a[0], a[1], True, True)
+            elif t == 4:
+                pick = lambda: float(wx[int(rng.integers(0, n))]) if rng.integers(0, 2) else float(rng.uniform(lo, hi))
+                a = (pick(), pick())
+                info["request"] = ["slice_by_value", list(a)]
+                call = lambda: wv.slice_by_value(*a)
+            elif t == 5:
+                g = np.sort(rng.uniform(lo, hi, int(rng.integers(2, 12))))
+                if rng.integers(0, 2):
+                    g[0] = lo
+                if rng.integers(0, 2):
+                    g[-1] = hi
+                m = ["linear", "constant", "cubic", "bogus"][int(rng.integers(0, 4))]
+                info["request"] = ["interpolate", {"grid_points": len(g), "method": m}]
+                call = lambda: wv.interpolate(new_x=g, method=m)
+            elif t == 6:
+                k = [0, 1, 2, 3, -1, 1.5][int(rng.integers(0, 6))]
+                info["request"] = ["recreate_from_average", k]
+                call = lambda: wv.recreate_from_average(k, rfa_class=R.cls(R.ALL[int(rng.integers(0, 6))]))
+            else:
+                kw = {"target_function_integral_method": ["trapezoid", "rectangle", "bogus"][int(rng.integers(0, 3))],
+                      "fixed_points_finding_strategy": ["closest", "lower", "nearest"][int(rng.integers(0, 3))]}
+                info["request"] = ["integral_match", kw]
+                call = lambda: wv.integral_match(**kw)
+            before = snap(wv)
+            ctx.judged()
+            ctx.monitor("c20:fuzzed_request")
+            try:
+                call()
+            except ValueError:
+                ctx.monitor("c20:fuzzed_rejected")
+                if not same_state(before, snap(wv)):
+                    ctx.violation("rejected_operation_changed_state:fuzzed", cid, {"case": info})
+                    return
+                ctx.nontriv("fuzz", idx)
+            except Exception:
+                ctx.count("fuzzed:other_exception_not_judged")
+            else:
+                ctx.count("fuzzed:accepted_not_judged")
+    except Exception as e:
+        ctx.exception("harness_or_valid_history_raised", cid, e, {"case": info})
+        return
+    if idx % 1300 == 21:
+        ctx.sample(info)
+
+
 def run_case(ctx, kind_, idx):
+    if kind_ == "fuzz":
+        return run_fuzz_case(ctx, kind_, idx)
     from traffic_weaver import Weaver
     from traffic_weaver import process, sorted_array_utils as U
     from traffic_weaver.match import integral_matching_reference_stretch
